@@ -7,6 +7,8 @@ Oracle ops for the `num` family (C10).  Byte strings are lowercase hex, empty = 
   num intv  <bits> <stringify 0|1> <kind n|s|0|x> <hex>   → `set <v>` | `null` | `E syntax|range|mismatch`
   num uintv <bits> <stringify 0|1> <kind n|s|0|x> <hex>   → same (hex = literal, or unquoted content for kind s)
   num floatv <32|64> <stringify 0|1> <kind n|s|0|x> <hex>  → `set <ieee bits, decimal>` | `null` | `E syntax|range|mismatch`   float unmarshaler
+  num floatlegacy <32|64> <hex>            → `set <bits>` | `null` | `E syntax|range`   the StringifyWithLegacySemantics arm (hex = unquoted
+                                             content: a JSON number, `null`, or something neither Go nor JSON accepts)
   num tokint  <hex>                        → `<v> <none|syntax|range>`   Token.Int on a raw number
   num tokuint <hex>                        → `<v> <none|syntax|range>`   Token.Uint
   num tokfloat <32|64> <hex>               → `<ieee bits, decimal> <none|range>`   Token.Float / exact ParseFloat
@@ -71,6 +73,11 @@ def handle (op : String) (args : List String) : String :=
       (match unmarshalFloatValue (parseFloatExact ff) (st == "1") k b with
        | .set f => s!"set {f.toBits ff}" | .null => "null" | .err e => showArshErr e)
     | _, _, _ => badArgs
+  | "floatlegacy", [bits, h] => match fmtOf bits, bytesOfHex h with
+    | some ff, some b =>
+      (match unmarshalFloatLegacy (pfGoOnJson JsonV.Spec.Ecma.isJsonNumber ff) b with
+       | .set f => s!"set {f.toBits ff}" | .null => "null" | .err e => showArshErr e)
+    | _, _ => badArgs
   | "tokint", [h] => match bytesOfHex h with
     | some b => let (v, e) := tokenInt pf64 b; s!"{v} {showNumErr e}"
     | none => badArgs
